@@ -62,7 +62,8 @@ def ensure_parser():
     in REPO's working tree changed (the test suite's own bootstrap does the same)."""
     gram = os.path.join(REPO, "src/scenic/syntax/scenic.gram")
     parser = os.path.join(REPO, "src/scenic/syntax/parser.py")
-    stamp = parser + ".verif-stamp"
+    os.makedirs(WORK, exist_ok=True)
+    stamp = os.path.join(WORK, "parser-" + sha(REPO)[:8] + ".stamp")
     with locked("parser-" + sha(REPO)[:8]):
         want = sha(open(gram, "rb").read())
         have = None
@@ -400,7 +401,7 @@ class Check:
         ev = dict(property_id=self.pid, tier=self.tier, seed=self.seed, level=self.level, coverage=self.cov,
                   assumptions=self.assumptions, wall_s=round(time.time() - self.t0, 2),
                   violations=len(self.violations))
-        with open(os.path.join(EVID, self.pid + ".json"), "w") as f:
+        with open(os.path.join(EVID, self.pid + os.environ.get("VERIF_EVID_SUFFIX", "") + ".json"), "w") as f:
             json.dump(ev, f, indent=1, default=str)
         print(f"{self.pid} {self.tier}: evaluations={self.cov['evaluations']} distinct_nontrivial={self.cov['distinct_nontrivial']} "
               f"obligations={self.cov['obligations']}/{self.cov['discharged']} known={len(self.known)} "
